@@ -164,3 +164,222 @@ def register_unit_execute(R, prop):
         ensures=_only(prop, ensures),
         replayable=False,
     )
+
+
+# ------------------------------------------------------------------------------------------------ ExecutionPlan.execute / phases.execute / probes.execute
+CORE = ENG + ".core:"
+
+
+def _inner_phase_events(it, env):
+    """Abstract result of phases.execute(engine, phase): a well-nested (suite/scenario) segment, then exactly one PhaseFinished for THIS phase."""
+    from pyvc.values import VGen, VObj
+
+    seg = VObj(it.resolve_class("spec:InnerSegment"), {})
+    cls = it.resolve_class(EV + "PhaseFinished")
+    status = EnumOf(STATUS).make(it, it.path.fresh("inner.status"))
+    fin = VObj(cls, {"id": fresh_opaque(it, "UUID"), "timestamp": None, "phase": env["phase"], "status": status, "payload": None})
+    return VGen([seg, fin])
+
+
+def register_plan(R, prop):
+    R.contract(PHASES + "execute", args={"ctx": Engine(abstract_limit=True), "phase": Opq("Any")}, returns=_inner_phase_events, trusted=True,
+               modifies={"ctx.control.stop_event.flag": Bool, "ctx.control.has_reached_the_failure_limit": Bool, "ctx.control._failures_counter": Int},
+               call_ensures={"stop_monotone": "implies(old(ctx.control.stop_event.flag), ctx.control.stop_event.flag)",
+                             "limit_monotone": "implies(old(ctx.control.has_reached_the_failure_limit), ctx.control.has_reached_the_failure_limit)"},
+               note="trace contract of the phase executors (unit.execute proved here; stateful/probes own contracts): suite/scenario events, then exactly one "
+                    "PhaseFinished of this phase, no exception escapes; stop and limit flags only ever get set")
+    yield_effect = {
+        # 0 -EngineStarted-> 1 -PhaseStarted-> 2 -(inner segment)-> 2 -PhaseFinished(same phase)-> 1 ... 1|2 -Interrupted-> 3 ; 1|3 -EngineFinished-> 9
+        "dfa": "(1 if ghost('dfa') == 0 and is_instance(event, 'EngineStarted') else "
+               "(2 if ghost('dfa') == 1 and is_instance(event, 'PhaseStarted') else "
+               "(2 if ghost('dfa') == 2 and is_instance(event, 'InnerSegment') else "
+               "(1 if ghost('dfa') == 2 and is_instance(event, 'PhaseFinished') and event.phase is ghost('open_phase') else "
+               "(3 if ghost('dfa') in (1, 2) and is_instance(event, 'Interrupted') else "
+               "(9 if ghost('dfa') in (1, 3) and is_instance(event, 'EngineFinished') else -1))))))",
+        "open_phase": "event.phase if is_instance(event, 'PhaseStarted') else ghost('open_phase')",
+        "finished": "ghost('finished') + (1 if is_instance(event, 'EngineFinished') else 0)",
+        # C12: a phase announced after the limit was reached carries the reason and is closed as SKIP without running
+        "limit_rule_ok": "ghost('limit_rule_ok') and "
+                         "implies(is_instance(event, 'PhaseStarted') and engine.control.has_reached_the_failure_limit, is_instance(event.phase.skip_reason, 'PhaseSkipReason') and event.phase.skip_reason.name == 'FAILURE_LIMIT_REACHED') and "
+                         "implies(is_instance(event, 'PhaseFinished') and ghost('limit_at_start'), event.status.name == 'SKIP')",
+        "limit_at_start": "engine.control.has_reached_the_failure_limit if is_instance(event, 'PhaseStarted') else ghost('limit_at_start')",
+        "ran_inner_after_limit": "ghost('ran_inner_after_limit') or (is_instance(event, 'InnerSegment') and ghost('limit_at_start'))",
+    }
+    inv = {
+        "index": "i",
+        "modifies": {"engine.control.stop_event.flag": Bool, "engine.control.has_reached_the_failure_limit": Bool, "engine.control._failures_counter": Int,
+                     "ghost:dfa": Int, "ghost:open_phase": Opq("Any"), "ghost:finished": Int, "ghost:limit_rule_ok": Bool, "ghost:limit_at_start": Bool,
+                     "ghost:ran_inner_after_limit": Bool},
+        "clauses": ["ghost('dfa') == 1", "ghost('finished') == 0", "ghost('limit_rule_ok')", "not ghost('ran_inner_after_limit')",
+                    "not engine.control.stop_event.flag"],
+    }
+    ensures = {
+        "C11_one_start_first_one_finish_last": "ghost('dfa') == 9 and ghost('finished') == 1 and is_instance(result[0], 'EngineStarted') and is_instance(result[-1], 'EngineFinished')",
+        "C12_phases_after_limit_are_skipped_with_reason": "ghost('limit_rule_ok') and not ghost('ran_inner_after_limit')",
+    }
+    PhaseEl = Obj(PHASES + "Phase", name=Opq("PhaseName"), is_supported=Bool, is_enabled=Bool, skip_reason=Opq("SkipReason"))
+    R.contract(
+        CORE + "ExecutionPlan.execute",
+        prop=prop,
+        args={"self": Obj(CORE + "ExecutionPlan", phases=Seq(PhaseEl, kind="list")), "engine": Engine(abstract_limit=True, start_time=Real)},
+        ghost={"dfa": 0, "open_phase": None, "finished": 0, "limit_rule_ok": True, "limit_at_start": False, "ran_inner_after_limit": False},
+        yield_effect=yield_effect,
+        invariants={0: inv},
+        ensures=_only(prop, ensures),
+        replayable=False,
+    )
+    if prop == "C11":
+        # dispatch: every phase name is routed to exactly one executor and its events are forwarded unchanged
+        R.contract(
+            CORE + "ExecutionPlan._finish",
+            prop=prop,
+            args={"self": Obj(CORE + "ExecutionPlan", phases=Seq(PhaseEl, kind="list")), "ctx": Engine(abstract_limit=True, start_time=Real)},
+            ensures={"C11_exactly_one_engine_finished": "length(result) == 1 and is_instance(result[0], 'EngineFinished')"},
+            inline=True,
+        )
+
+
+# ------------------------------------------------------------------------------------------------ run_test (exception ladder)
+REC = ENG + ".recorder:"
+HE = "hypothesis.errors."
+
+# external exception classes the test function can raise (class hierarchy as in the installed libraries)
+EXT_EXC = {
+    "unittest.case.SkipTest": ["Exception"],
+    HE + "HypothesisException": ["Exception"],
+    HE + "Flaky": [HE + "HypothesisException"],
+    HE + "FlakyFailure": ["ExceptionGroup", HE + "Flaky"],
+    HE + "DeadlineExceeded": ["Exception"],
+    HE + "Unsatisfiable": [HE + "HypothesisException"],
+    HE + "InvalidArgument": [HE + "HypothesisException", "TypeError"],
+    "hypothesis_jsonschema._canonicalise.HypothesisRefResolutionError": ["Exception"],
+    "jsonschema.exceptions.SchemaError": ["Exception"],
+    "jsonschema.exceptions.ValidationError": ["Exception"],
+    "requests.exceptions.ConnectionError": ["OSError"],
+}
+
+# every way the test function can end (E2: Hypothesis re-raises what the test body / data generation raised)
+TEST_OUTCOMES = [
+    "schemathesis.core.control:SkipTest", "unittest.case.SkipTest", "schemathesis.core.failures:Failure", "schemathesis.core.failures:FailureGroup",
+    "UnexpectedError", "Flaky:deadline-cause", "Flaky:plain", "FlakyFailure:with-deadline", "FlakyFailure:plain", "BaseExceptionGroup",
+    HE + "Unsatisfiable", "KeyboardInterrupt", "AssertionError", "hypothesis_jsonschema._canonicalise.HypothesisRefResolutionError",
+    HE + "InvalidArgument", HE + "DeadlineExceeded", "jsonschema.exceptions.SchemaError", "ValueError", "requests.exceptions.ConnectionError", "RuntimeError",
+]
+
+
+def _exc(it, name):
+    return it.make_exc(it.resolve_exc_class(name, None), ())
+
+
+def _mk_outcome(tag):
+    def fac(it, env):
+        errors = env.get("errors")
+        if tag == "UnexpectedError":
+            # cached_test_func's contract: UnexpectedError is raised only after the real error was appended to `errors`
+            errors.append(_exc(it, "RuntimeError"))
+            return _exc(it, ENG + ".errors:UnexpectedError")
+        if tag.startswith("Flaky:"):
+            e = _exc(it, HE + "Flaky")
+            e.fields["__cause__"] = _exc(it, HE + "DeadlineExceeded") if tag.endswith("deadline-cause") else None
+            if it.path.choose([(False, True), (True, True)], "flaky:errors-recorded"):
+                errors.append(_exc(it, "RuntimeError"))
+            return e
+        if tag.startswith("FlakyFailure:"):
+            e = _exc(it, HE + "FlakyFailure")
+            e.fields["__cause__"] = None
+            e.fields["exceptions"] = [_exc(it, HE + "DeadlineExceeded"), _exc(it, "ValueError")] if tag.endswith("with-deadline") else [_exc(it, "ValueError")]
+            if it.path.choose([(False, True), (True, True)], "flaky:errors-recorded"):
+                errors.append(_exc(it, "RuntimeError"))
+            return e
+        return _exc(it, tag)
+
+    return fac
+
+
+def register_run_test(R, prop):
+    R.exception_classes.update(EXT_EXC)
+    R.exception_classes["UnexpectedError"] = ENG + ".errors:UnexpectedError"
+    if not hasattr(R, "exception_factories"):
+        R.exception_factories = {}
+    for t in TEST_OUTCOMES:
+        R.exception_factories[t] = _mk_outcome(t)
+    R.contract("spec:test_function", args={"ctx": Opq("Any"), "errors": Opq("Any"), "recorder": Opq("Any")}, returns=NoneT, raises=TEST_OUTCOMES, trusted=True,
+               effects={"outcome": "'ok' if raised is None else raised"},
+               note="E2: the Hypothesis-wrapped test either returns or re-raises what the body raised: a failure (group), UnexpectedError after recording the error "
+                    "(cached_test_func contract), Flaky variants, Unsatisfiable, KeyboardInterrupt, skip, or any other exception")
+    R.contract(UEX + "setup_hypothesis_database_key", args={"test": Opq("Any"), "operation": Opq("Any")}, returns=NoneT, trusted=True, note="sets a Hypothesis digest attribute")
+    M = "schemathesis.core.marks:Mark."
+    R.contract(M + "is_set", args={"self": Opq("Any"), "func": Opq("Any")}, returns=Bool, trusted=True, effects={"marks": "ghost('marks') + (1 if result else 0)"},
+               note="whether add_examples left a mark on the test (C17)")
+    R.contract(M + "get", args={"self": Opq("Any"), "func": Opq("Any")}, returns=OneOf(NoneT, Obj("spec:MarkValue", media_types=Const(("application/x-unsupported",)))), trusted=True,
+               effects={"marks": "ghost('marks') + (0 if result is None else 1)"}, note="value of a mark left by add_examples (C17)")
+    Checks = Seq(Seq(Obj(REC + "CheckNode", name=Str, status=EnumSym(STATUS), failure_info=Opq("Any"))), kind="list")
+    R.opaque_classes["ChecksMap"] = "spec:ChecksMap"
+    R.contract("spec:ChecksMap.values", args={"self": Opq("ChecksMap")}, returns=lambda it, env: it.ghost["checks"], trusted=True,
+               note="recorded check results per case id, as left by the test body (ScenarioRecorder.record_check_*)")
+
+    def _new_recorder(it, env):
+        # what the test body will have recorded is fixed (arbitrary) from the start: ghost('checks') names it whether or not the code reads it
+        it.ghost["checks"] = Checks.make(it, it.path.fresh("recorded_checks"))
+        return Obj(REC + "ScenarioRecorder", label=Str, checks=Opq("ChecksMap")).make(it, it.path.fresh("recorder"))
+
+    R.contract(REC + "ScenarioRecorder", abstract_only=True, args={"label": Str}, returns=_new_recorder,
+               note="constructor; `checks` is what the test body recorded by the time it is read")
+    ERRS = "schemathesis.core.errors:"
+    for q in (ERRS + "InvalidSchema.from_jsonschema_error", ERRS + "InvalidRegexPattern.from_hypothesis_jsonschema_message", ERRS + "InvalidRegexPattern.from_schema_error",
+              ERRS + "InvalidHeadersExample.from_headers", ENG + ".errors:DeadlineExceeded.from_exc"):
+        R.contract(q, args={"cls": Opq("Any"), "a": Opq("Any")}, returns=Opq("ErrObj"), trusted=True, varargs="a", note="error-object constructor")
+    for q in (ERRS + "SerializationNotPossible", ERRS + "InvalidRegexType", ERRS + "InvalidSchema", ENG + ".errors:UnsupportedRecursiveReference"):
+        R.contract(q, abstract_only=True, args={"message": Opq("Any")}, returns=Opq("ErrObj"), note="error-object constructor")
+    R.extern[HE + "Unsatisfiable"] = lambda it, a, k: fresh_opaque(it, "ErrObj")
+    R.contract(ENG + ".errors:deduplicate_errors", args={"errors": Opq("Any")}, returns=Seq(Opq("ErrObj")), trusted=True,
+               call_ensures={"empty_iff_empty": "iff(length(errors) == 0, length(result) == 0)"},
+               note="yields a de-duplicated sub-list of the recorded errors: empty exactly when the input is empty (checked by the bounded stand-in "
+                    "`deduplicate_errors_nonempty`, under the precondition that SerializationNotPossible errors carry at least one media type)")
+    R.contract(UEX + "get_invalid_regular_expression_message", args={"warnings": Opq("Any")}, returns=Opt(Str), trusted=True, note="scans recorded warnings")
+    R.contract("schemathesis.schemas:BaseSchema.validate", args={"self": Opq("Schema")}, returns=NoneT, raises=["jsonschema.exceptions.ValidationError"], trusted=True,
+               note="validates the raw schema document")
+    R.opaque_classes["Schema"] = "schemathesis.schemas:BaseSchema"
+    NFE = "is_instance(event, 'NonFatalError')"
+    yield_effect = {
+        # 0 -ScenarioStarted-> 1 -NonFatalError*-> 1 -ScenarioFinished(same id)-> 2 -Interrupted-> 3
+        "dfa": "(1 if ghost('dfa') == 0 and is_instance(event, 'ScenarioStarted') else "
+               f"(1 if ghost('dfa') == 1 and {NFE} else "
+               "(2 if ghost('dfa') == 1 and is_instance(event, 'ScenarioFinished') and event.id is ghost('sid') else "
+               "(3 if ghost('dfa') == 2 and is_instance(event, 'Interrupted') and ghost('fin_status') == 'INTERRUPTED' else -1))))",
+        "sid": "event.id if is_instance(event, 'ScenarioStarted') else ghost('sid')",
+        "nfe": f"ghost('nfe') + (1 if {NFE} else 0)",
+        "fin_status": "event.status.name if is_instance(event, 'ScenarioFinished') else ghost('fin_status')",
+    }
+    ensures = {
+        "C11_scenario_protocol": "ghost('dfa') in (2, 3) and is_instance(result[0], 'ScenarioStarted')",
+        "C11_interrupted_iff_keyboard_interrupt": "iff(ghost('dfa') == 3, ghost('outcome') == 'KeyboardInterrupt')",
+        # C05: success is reported only for a test that really ended without any problem
+        "C05_success_only_if_nothing_went_wrong": "implies(ghost('fin_status') == 'SUCCESS', ghost('outcome') == 'ok' and ghost('marks') == 0 and ghost('nfe') == 0 and length(errors_of(result)) == 0 and "
+                                                  "not (ctx.config.execution.continue_on_failure and any(check.status == Status_FAILURE() for checks in ghost('checks') for check in checks)))",
+        "C05_failure_reported_as_failure_or_worse": "implies(ghost('outcome') in ('schemathesis.core.failures:Failure', 'schemathesis.core.failures:FailureGroup'), ghost('fin_status') in ('FAILURE', 'ERROR'))",
+        "C05_every_other_exception_is_an_error_with_a_message": "implies(ghost('outcome') not in ('ok', 'schemathesis.core.control:SkipTest', 'unittest.case.SkipTest', 'schemathesis.core.failures:Failure', "
+                                                                "'schemathesis.core.failures:FailureGroup', 'KeyboardInterrupt', 'Flaky:plain', 'FlakyFailure:plain'), "
+                                                                "ghost('fin_status') == 'ERROR' and (ghost('nfe') >= 1 or ghost('outcome') == 'BaseExceptionGroup'))",
+        "C05_flaky_is_failure_or_error": "implies(ghost('outcome') in ('Flaky:plain', 'FlakyFailure:plain'), ghost('fin_status') in ('FAILURE', 'ERROR'))",
+        "C05_skip_only_when_told_to_skip": "implies(ghost('fin_status') == 'SKIP', ghost('outcome') in ('schemathesis.core.control:SkipTest', 'unittest.case.SkipTest'))",
+        "C05_marks_make_error": "implies(ghost('marks') > 0 and ghost('outcome') != 'KeyboardInterrupt', ghost('fin_status') == 'ERROR')",
+    }
+    R.spec_funcs["Status_FAILURE"] = lambda it: it.resolve_class(STATUS).members["FAILURE"]
+    R.spec_funcs["errors_of"] = lambda it, result: it.ghost.get("errors_list") or []
+    R.contract(
+        UEX + "run_test",
+        prop=prop,
+        args={"operation": Obj("schemathesis.schemas:APIOperation", label=Str, path=Str, method=Str, schema=Opq("Schema")),
+              "test_function": Callable_(contract="spec:test_function", name="test_function"),
+              "ctx": Obj(ECX, config=Obj(ENG + ".config:EngineConfig", execution=Obj(ENG + ".config:ExecutionConfig", continue_on_failure=Bool))),
+              "phase": Opq("PhaseName"), "suite_id": Opq("UUID")},
+        ghost={"dfa": 0, "sid": None, "nfe": 0, "fin_status": "none", "outcome": "not-called", "marks": 0, "checks": [], "errors_list": None, "nfe0": 0},
+        yield_effect=yield_effect,
+        # loop 2 (source order) is `for error in deduplicate_errors(errors): yield non_fatal_error(error)`
+        invariants={2: {"index": "i", "snapshot": {"nfe0": "ghost('nfe')"}, "modifies": {"ghost:dfa": Int, "ghost:nfe": Int},
+                        "clauses": ["ghost('dfa') == 1", "ghost('nfe') == ghost('nfe0') + i"]}},
+        ensures=_only(prop, ensures),
+        replayable=False,
+        max_paths=20000,
+    )
